@@ -90,6 +90,7 @@ pub fn all() -> Vec<Box<dyn Property>> {
         Box::new(crate::props::c08::C08),
         Box::new(crate::props::c09::C09),
         Box::new(crate::props::c10::C10),
+        Box::new(crate::props::c17::C17),
         Box::new(crate::props::c19::C19),
         Box::new(crate::props::c20::C20),
     ]
